@@ -151,6 +151,29 @@ theorem acl_roundtrip (cfg : Cfg) (s : State) (w w' : Who) (now : Int) (b : Byte
         have hr := hread { bk with acl := ⟨bk.acl.owner, cannedGrantees bk.acl.owner acl⟩ } hname rfl
         simp only [hacl, Bool.false_eq_true, if_false, find_set s { bk with acl := ⟨bk.acl.owner, cannedGrantees bk.acl.owner acl⟩ } b hname, hr]
 
+/-- **An ACL given by grant headers reads back as last written**: the owner's full control followed by
+exactly the granted (account, permission) pairs, in order — none merged, none dropped, whatever the
+combination (the same account may hold several permissions). -/
+theorem aclGrants_roundtrip (cfg : Cfg) (s : State) (w w' : Who) (now : Int) (b : Bytes) (gs : List (Perm × Bytes)) (bk : Bucket)
+    (hb : findBucket s b = some bk)
+    (hok : (handle cfg s w now (.putBucketAclGrants b gs)).2.code = "")
+    (hread : ∀ bk', bk'.name = b → bk'.policy = bk.policy →
+      verifyAccess cfg bk' w' .readAcp actGetBucketAcl [] = none) :
+    (handle cfg (handle cfg s w now (.putBucketAclGrants b gs)).1 w' now (.getBucketAcl b)).2 =
+      okR [("acl", showAcl ⟨bk.acl.owner, ⟨bk.acl.owner, .fullControl, false⟩ :: gs.map fun (p, a) => ⟨a, p, false⟩⟩)] := by
+  have hname := findBucket_name s b bk hb
+  simp only [handle, withBucket, hb] at hok ⊢
+  split at hok
+  · exact absurd hok (errR_code_ne _)
+  · rename_i hown
+    simp only [hown, if_false]
+    cases hchk : verifyAccess cfg bk w .writeAcp actPutBucketAcl [] with
+    | some e => rw [hchk] at hok; exact absurd hok (errR_code_ne e)
+    | none =>
+      simp only [guarded]
+      have hr := hread { bk with acl := ⟨bk.acl.owner, ⟨bk.acl.owner, .fullControl, false⟩ :: gs.map fun (p, a) => ⟨a, p, false⟩⟩ } hname rfl
+      simp only [Bool.false_eq_true, if_false, find_set s { bk with acl := ⟨bk.acl.owner, ⟨bk.acl.owner, .fullControl, false⟩ :: gs.map fun (p, a) => ⟨a, p, false⟩⟩ } b hname, hr]
+
 /-- **A non-admin's ListBuckets shows only buckets it owns** (and an admin's only existing
 buckets): every listed name is a bucket of the state whose owner is the caller, unless the caller
 is an admin. -/
